@@ -1,12 +1,12 @@
 #!/verif/.venv/bin/python
-# Replay of a counterexample against the real code in /repo/src (exit 1 = violation reproduced).
+# Replay of a counterexample against the real code in /tmp/wt_couplings/src (exit 1 = violation reproduced).
 import os, sys
 os.environ.setdefault("NUMBA_DISABLE_JIT", "1")
-sys.path.insert(0, '/repo' + "/src"); sys.path.insert(0, '/verif')
+sys.path.insert(0, '/tmp/wt_couplings' + "/src"); sys.path.insert(0, '/verif')
 from fractions import Fraction
 import harness.cplkit as H
 try:
-    r = H.replay_multi({'nf': Fraction(3, 1)}, **{'mod': 'harness.C16', 'fn': 'replay_table', 'extra': [{'nf': Fraction(3, 1)}, {'nf': Fraction(4, 1)}, {'nf': Fraction(5, 1)}, {'a': Fraction(23, 1000), 'alpha': Fraction(17, 1000), 'aem': Fraction(3, 5000), 'nf': Fraction(4, 1), 'Lc': Fraction(-591, 500), 'Lb': Fraction(-563, 500), 'Lt': Fraction(-19, 200), 'Lq': Fraction(-581, 1000)}, {'a': Fraction(27, 1000), 'alpha': Fraction(11, 500), 'aem': Fraction(3, 4000), 'nf': Fraction(4, 1), 'Lc': Fraction(-173, 200), 'Lb': Fraction(-513, 1000), 'Lt': Fraction(11, 1000), 'Lq': Fraction(53, 500)}, {'a': Fraction(23, 1000), 'alpha': Fraction(2, 125), 'aem': Fraction(3, 6250), 'nf': Fraction(5, 1), 'Lc': Fraction(-453, 1000), 'Lb': Fraction(273, 250), 'Lt': Fraction(279, 1000), 'Lq': Fraction(-797, 1000)}, {'a': Fraction(1, 50), 'alpha': Fraction(7, 250), 'aem': Fraction(31, 50000), 'nf': Fraction(4, 1), 'Lc': Fraction(107, 100), 'Lb': Fraction(189, 200), 'Lt': Fraction(-129, 1000), 'Lq': Fraction(-509, 500)}], 'kw': {'scheme': 'MSBAR'}})
+    r = H.replay_multi({'nf': Fraction(3, 1)}, **{'mod': 'harness.C16', 'fn': 'replay_table', 'extra': [{'nf': Fraction(3, 1)}, {'nf': Fraction(4, 1)}, {'nf': Fraction(5, 1)}, {'a': Fraction(1, 40), 'alpha': Fraction(13, 1000), 'aem': Fraction(21, 50000), 'nf': Fraction(3, 1), 'Lc': Fraction(-1071, 1000), 'Lb': Fraction(303, 500), 'Lt': Fraction(-579, 1000), 'Lq': Fraction(-7, 8)}, {'a': Fraction(27, 1000), 'alpha': Fraction(1, 50), 'aem': Fraction(73, 100000), 'nf': Fraction(5, 1), 'Lc': Fraction(709, 1000), 'Lb': Fraction(-99, 100), 'Lt': Fraction(507, 1000), 'Lq': Fraction(143, 250)}, {'a': Fraction(1, 50), 'alpha': Fraction(1, 40), 'aem': Fraction(3, 6250), 'nf': Fraction(3, 1), 'Lc': Fraction(91, 1000), 'Lb': Fraction(124, 125), 'Lt': Fraction(-167, 200), 'Lq': Fraction(973, 1000)}, {'a': Fraction(21, 1000), 'alpha': Fraction(23, 1000), 'aem': Fraction(41, 100000), 'nf': Fraction(3, 1), 'Lc': Fraction(-91, 125), 'Lb': Fraction(14, 125), 'Lt': Fraction(-27, 200), 'Lq': Fraction(24, 125)}], 'kw': {'scheme': 'MSBAR', 'which': 'down', 'n': 3, 'l': 2}})
 except Exception:
     import traceback; traceback.print_exc(); sys.exit(2)
 print(r)
